@@ -145,8 +145,8 @@ func runC02(c *core.Ctx) {
 	c.Min("C02-R4", nSave, 3, "QBFTStore.Save* call sites outside the store")
 	if tf, err := c.P.LookupFunc(ctrl + "SaveInstance"); err == nil {
 		sites := whoMayCall(c, "C02-R4", "Controller.SaveInstance", mapOf(tf), nil, map[string]string{
-			cN + "Controller.UponDecided":                                     "validated decided certificate (R2)",
-			"ssv/protocol/v2/ssv/runner.BaseRunner.baseConsensusMsgProcessing": "after didDecideCorrectly",
+			cN + "Controller.UponDecided":                                        "validated decided certificate (R2)",
+			"ssv/protocol/v2/ssv/runner.BaseRunner.baseConsensusMsgProcessing":   "after didDecideCorrectly",
 			"ssv/protocol/v2/ssv/validator.NonCommitteeValidator.ProcessMessage": "decided != nil from Controller.ProcessMsg",
 		})
 		c.Min("C02-R4", len(sites), 3, "Controller.SaveInstance call sites")
